@@ -748,7 +748,10 @@ func (c *Cluster) exec(op string, rs *RS, r *Region, row []byte) {
 
 func (c *Cluster) doGetLocked(rs *RS, r *Region, g *pb.Get) ([]KV, string) {
 	if r == nil {
-		return nil, ExcDoNotRetry // gets on hbase:meta are not used by the client
+		if g.GetExistenceOnly() {
+			return nil, "" // the establisher's probe of hbase:meta: no such row, as a regionserver would answer
+		}
+		return nil, ExcDoNotRetry // (other gets on hbase:meta are not used by the client)
 	}
 	if !r.Contains(g.GetRow()) {
 		return nil, ExcWrongRegion
